@@ -21,7 +21,7 @@ from typing import Any
 from . import tlc
 from .engine_driver import KIND, Recorder
 
-ACTION = re.compile(r"^\\\* <(\w+)(?:\((\d+)\))? line")
+ACTION = re.compile(r"^\\\* <(\w+)(?:\((\d+)[\d, ]*\))? line")
 
 
 def parse_behaviour(path: str) -> list[tuple[str, int, dict]]:
@@ -67,7 +67,7 @@ def parse_counterexample(lines: list[str]) -> list[tuple[str, int, dict]]:
     out = []
     action, param, state = "", 0, {}
     cur_var, cur_val = None, []
-    hdr = re.compile(r"^State \d+: <(\w+)(?:\((\d+)\))? line")
+    hdr = re.compile(r"^State \d+: <(\w+)(?:\((\d+)[\d, ]*\))? line")
 
     def flush_var():
         nonlocal cur_var, cur_val
